@@ -228,8 +228,10 @@ func runC14(c *Ctx, idx int, o *Obs) {
 	}
 	// ---- commands ---------------------------------------------------------------------------
 	if idx%8 == 7 && opts14Simple(names) {
-		f := tmpFile(c, "t.nw", text+"\n")
-		res := runCLI(c, "", "matrix", "-i", f, "-m", "brlen")
+		_ = tmpFile(c, "t.nw", text+"\n")
+		inArgs, inStdin, inMode := presentTrees(c, r, "t-alt", []string{text}, plainNewick(text))
+		o.Ev("cli_input:"+inMode, 1)
+		res := runCLI(c, inStdin, append(append([]string{"matrix"}, inArgs...), "-m", "brlen")...)
 		o.Ev("cli", 1)
 		if o.Check(res.Exit == 0 && !res.Panic, "cli_matrix_failed", res.brief(), text) {
 			lines := strings.Split(strings.TrimRight(res.Stdout, "\n"), "\n")
@@ -262,7 +264,7 @@ func runC14(c *Ctx, idx int, o *Obs) {
 		if len(lv) > 0 {
 			tcut := lv[r.Intn(len(lv))]
 			if !(absent && tcut <= 0) {
-				res := runCLI(c, "", "brlen", "cut", "-i", f, "-l", strconv.FormatFloat(tcut, 'g', -1, 64))
+				res := runCLI(c, inStdin, append(append([]string{"brlen", "cut"}, inArgs...), "-l", strconv.FormatFloat(tcut, 'g', -1, 64))...)
 				if o.Check(res.Exit == 0 && !res.Panic, "cli_cut_failed", res.brief(), text) {
 					want := bm.Components(func(l ref.Num) bool { return l.Has && l.V >= tcut })
 					var got [][]string
